@@ -292,3 +292,7 @@ M('C16', 'regions-replace-partial', 'zonal.py', "                        # repla
 M('C16', 'regions-pass2-4-table-differs', 'zonal.py', "                src_window[1] = data[max(y - 1, 0), x]\n                src_window[2] = data[min(y + 1, rows - 1), x]\n                src_window[3] = data[y, min(x + 1, cols - 1)]\n\n                area_window[0] = out[y, max(x - 1, 0)]\n                area_window[1] = out[max(y - 1, 0), x]\n                area_window[2] = out[min(y + 1, rows - 1), x]\n                area_window[3] = out[y, min(x + 1, cols - 1)]\n\n            val = data[y, x]",
   "                src_window[1] = data[max(y - 1, 0), x]\n                src_window[2] = data[max(y - 1, 0), x]\n                src_window[3] = data[y, min(x + 1, cols - 1)]\n\n                area_window[0] = out[y, max(x - 1, 0)]\n                area_window[1] = out[max(y - 1, 0), x]\n                area_window[2] = out[max(y - 1, 0), x]\n                area_window[3] = out[y, min(x + 1, cols - 1)]\n\n            val = data[y, x]", 'R1')
 T('C16', 'regions-labels-int64', 'zonal.py', "    out = np.zeros(data.shape, dtype=np.float64)\n    rows, cols = data.shape\n    uid = 1", "    out = np.zeros(data.shape, dtype=np.int64)\n    rows, cols = data.shape\n    uid = 1")
+M('C02', 'ravel-order-K', 'zonal.py', "    flatten_zones = zones.ravel()\n", "    flatten_zones = zones.ravel(order='K')\n", 'Z-flat')
+M('C04', 'crosstab3d-enumerate-selection', 'zonal.py', "    # 2D flatten `zone_values`, i.e, original data is 3D\n    for j, cat in enumerate(unique_cats):\n        if cat in cat_ids:", "    # 2D flatten `zone_values`, i.e, original data is 3D\n    for j, cat in enumerate(cat_ids):\n        if cat in unique_cats:", 'X-key')
+M('C03', 'block-early-out-sorted-ids', 'zonal.py', "    _, values_by_zones, zone_breaks = _sort_and_stride(zones_block, values_block, unique_zones)\n    results = _calc_stats(", "    if np.nanmax(zones_block) < zone_ids[0] or np.nanmin(zones_block) > zone_ids[-1]:\n        return np.full(unique_zones.shape, np.nan)\n    _, values_by_zones, zone_breaks = _sort_and_stride(zones_block, values_block, unique_zones)\n    results = _calc_stats(", 'Z2b')
+T('C02', 'ravel-order-C', 'zonal.py', "    flatten_zones = zones.ravel()\n", "    flatten_zones = zones.ravel(order='C')\n")
